@@ -41,7 +41,7 @@ CTX = [("int", dict(type="int", size=None, nullable=True, default=None)),
 POS = ["S", "T", "C1", "C2", "C3", "K1", "K2", "K3", "RS", "RT", "RC", "IX", "K4", "Q", "TY", "D"]
 BASE = {"S": "sc", "T": "tb", "C1": "ca", "C2": "cb", "C3": "cc", "K1": "ka", "K2": "kb", "K3": "kc", "RS": "rs", "RT": "rt", "RC": "rc",
         "IX": "ix", "K4": "kd", "Q": "sq", "TY": "ty", "D": "dm"}
-FORMS = ["lower", "Mixed", "UPPER", "x_1", "dq", "bt", "br", "dq_us", "br_us", "dq_sp", "dq_nest", "bt_dbl", "br_dbl", "bt_dash"]
+FORMS = ["lower", "Mixed", "UPPER", "x_1", "dq", "bt", "br", "dq_us", "br_us", "dq_sp", "dq_nest", "bt_dbl", "br_dbl", "bt_dash", "arr", "Arr", "dq_dot"]
 # words the grammar actions compare by value although they are not tokens: legal names in any spelling but the exact upper-case one
 PSEUDO_KW = ["ASC", "DESC"]
 SCRIPT = ("CREATE TABLE {S}.{T} ({C1} int, {C2} varchar(5), {C3} int, CONSTRAINT {K1} PRIMARY KEY ({C1}, {C2}), "
@@ -82,7 +82,9 @@ def form(name, f):
             "bt": "`%s`" % name.capitalize(), "br": "[%s]" % name.capitalize(), "dq_us": '"_%s_"' % name, "br_us": "[_%s_]" % name,
             "dq_sp": '"%s %s"' % (name.capitalize(), name), "dq_nest": '"[%s]"' % name, "bt_nest": '`"%s"`' % name,
             # a delimited name that contains its own (doubled) delimiter, and one with a dash
-            "bt_dbl": "`%s``%s`" % (name[0], name[1:]), "br_dbl": "[%s]]%s]" % (name[0], name[1:]), "bt_dash": "`%s-%s`" % (name[0], name[1:])}[f]
+            "bt_dbl": "`%s``%s`" % (name[0], name[1:]), "br_dbl": "[%s]]%s]" % (name[0], name[1:]), "bt_dash": "`%s-%s`" % (name[0], name[1:]),
+            # plain names that begin with the word ARRAY (a type keyword the lexer tests by prefix), and a quoted name containing a dot
+            "arr": "array_" + name, "Arr": "Arrays" + name.capitalize(), "dq_dot": '"%s.%s"' % (name, name)}[f]
 
 
 def strip1(s):
@@ -103,7 +105,7 @@ def gen_cases(tier):
         for f in ("lC" if kw in PSEUDO_KW else "UlC"):
             for p in range(3):
                 for ci in range(len(CTX)):
-                    for listed in (None, "pk", "uq"):
+                    for listed in (None, "pk", "uq", "ix"):
                         if listed == "pk" and ci == 3:
                             continue
                         cases.append({"kind": "kw", "kw": kw, "form": f, "pos": p, "ctx": ci, "listed": listed, "excluded": kw in EXCL})
@@ -179,7 +181,8 @@ def kw_ddl(case):
         extra = ", PRIMARY KEY (%s, %s)" % (name, other)
     if case["listed"] == "uq":
         extra = ", UNIQUE (%s, %s)" % (other, name)
-    return "CREATE TABLE t (%s%s);" % (", ".join(cols), extra), name, other
+    tail = "\nCREATE INDEX ix1 ON t (%s, %s DESC);" % (other, name) if case["listed"] == "ix" else ""
+    return "CREATE TABLE t (%s%s);" % (", ".join(cols), extra) + tail, name, other
 
 
 def evaluate(case):
@@ -210,6 +213,11 @@ def evaluate(case):
                     diffs.append(diff("column %s.%s" % (name, k), "keyword-column-attr", v, c.get(k)))
             if case["listed"] == "pk" and t.get("primary_key") != [name, other]:
                 diffs.append(diff("primary_key", "keyword-in-key-list", [name, other], t.get("primary_key")))
+            if case["listed"] == "ix":
+                ix = (t.get("index") or [{}])[0]
+                got_ix = [[d.get("name"), d.get("order")] for d in ix.get("detailed_columns", [])]
+                if ix.get("columns") != [other, name] or got_ix != [[other, "ASC"], [name, "DESC"]]:
+                    diffs.append(diff("index column list", "keyword-in-key-list", [[other, "ASC"], [name, "DESC"]], short(ix, 200)))
             if case["listed"] == "uq":
                 u = (t.get("constraints") or {}).get("uniques") or [{}]
                 if u[0].get("columns") != [other, name]:
@@ -239,7 +247,7 @@ def features(case):
     f = []
     if case["kind"] == "id":
         for p, fm in case["assign"].items():
-            if fm in ("dq", "bt", "br", "dq_us", "br_us", "dq_sp", "bt_dbl", "br_dbl", "bt_dash"):
+            if fm in ("dq", "bt", "br", "dq_us", "br_us", "dq_sp", "bt_dbl", "br_dbl", "bt_dash", "dq_dot"):
                 f.append("delimited:" + p)
             if fm in ("dq_nest", "bt_nest"):
                 f.append("delimited:nested-delimiters")
